@@ -22,7 +22,7 @@ St0 == [run |-> 0, recv |-> [s \in Steps |-> {}],     \* events handed to s: <<u
         lists |-> {},                                 \* <<step, buf, owner>>
         failed |-> {},                                \* <<step, owner>>: the invocation failed after it got its set (a retry
                                                       \* competes for the buffer again; only a suspended invocation must see it again)
-        nstart |-> 0, nlist |-> 0,                    \* (Tr.equal) executions of the collecting step / lists handed out
+        nstart |-> 0, nlist |-> 0, ncall |-> 0,                    \* (Tr.equal) executions of the collecting step / lists handed out
         bad |-> "ok"]
 \* Tr.equal: the scenario fills a repeated-type expected list with EQUAL-VALUED events (one uid): events cannot be told apart
 \* by identity, so the clauses count -- every list is as expected, and n arrivals at a one-worker step yield n \div k lists
@@ -41,11 +41,13 @@ Apply(s, r) ==
   CASE r.e = "step_start" -> [s0 EXCEPT !.recv[r.step] = @ \cup {<<r.uid, r.ty>>},
                                          !.nstart = IF r.step \in DOMAIN Tr.collect THEN @ + 1 ELSE @]
     [] Equal /\ r.e = "collect_ret" /\ r.got = "list" ->
-         [s0 EXCEPT !.nlist = @ + 1, !.bad = IF r.tys # r.expected THEN "list_not_as_expected" ELSE @]
+         [s0 EXCEPT !.nlist = @ + 1, !.ncall = @ + 1, !.bad = IF r.tys # r.expected THEN "list_not_as_expected" ELSE @]
     [] Equal /\ r.e = "drained" /\ r.live_run /\ r.open = 0 ->
-         [s0 EXCEPT !.bad = IF \E x \in DOMAIN Tr.collect : s0.nlist < Floor(s0.nstart, Len(Tr.collect[x]))
+         \* (ncall: calls of collect_events = events handed to it; an invocation that failed before the call and was retried
+         \*  hands its event over once)
+         [s0 EXCEPT !.bad = IF \E x \in DOMAIN Tr.collect : s0.nlist < Floor(s0.ncall, Len(Tr.collect[x]))
                             THEN "full_set_never_returned" ELSE @]
-    [] Equal /\ r.e = "collect_ret" -> s0
+    [] Equal /\ r.e = "collect_ret" -> [s0 EXCEPT !.ncall = @ + 1]
     [] r.e = "collect_ret" /\ r.got = "list" ->
          LET us == Set(r.uids)
              clash == \E x \in s0.used : x[1] = r.step /\ x[2] = r.buf /\ x[3] \in us /\ x[4] # r.uid
